@@ -1401,7 +1401,7 @@ func (p *parser) index(child Node) (Node, bool, error) {
 	start := 0
 	if p.curr.Type == lexer.IntegerLiteralToken {
 		var err error
-		start, err = strconv.Atoi(p.curr.Value)
+		start, err = integer(p.curr.Value)
 		if err != nil {
 			return nil, false, &invalidIndexError{p.curr.Value}
 		}
@@ -1448,7 +1448,7 @@ func (p *parser) index(child Node) (Node, bool, error) {
 	stop := math.MaxInt
 	if p.curr.Type == lexer.IntegerLiteralToken {
 		var err error
-		stop, err = strconv.Atoi(p.curr.Value)
+		stop, err = integer(p.curr.Value)
 		if err != nil {
 			return nil, false, &invalidIndexError{p.curr.Value}
 		}
@@ -1511,7 +1511,7 @@ func (p *parser) index(child Node) (Node, bool, error) {
 		}
 
 		var err error
-		step, err = strconv.Atoi(p.curr.Value)
+		step, err = integer(p.curr.Value)
 		if err != nil {
 			return nil, false, &invalidIndexError{p.curr.Value}
 		}
@@ -1904,6 +1904,22 @@ func (p *parser) primaryExpression() (Node, error) {
 // follow it and are applied to every projected element. The selector directly
 // after the projection always belongs to it, later ones only while they bind
 // tighter than prec. It returns nil if there is no right-hand side.
+// integer converts an index or a slice part. The grammar puts no bound on the
+// size of a number, so one beyond the range of int saturates: it lies beyond
+// every length either way.
+func integer(s string) (int, error) {
+	i, err := strconv.Atoi(s)
+	if errors.Is(err, strconv.ErrRange) {
+		if strings.HasPrefix(s, "-") {
+			return math.MinInt, nil
+		}
+
+		return math.MaxInt, nil
+	}
+
+	return i, err
+}
+
 func (p *parser) projection(prec int) (Node, error) {
 	switch p.curr.Type {
 	case lexer.ArrayWildcardToken,
